@@ -1,8 +1,10 @@
 package core
 
 import (
+	"fmt"
 	"go/token"
 	"go/types"
+	"os"
 	"sort"
 
 	"golang.org/x/tools/go/ssa"
@@ -15,6 +17,15 @@ import (
 type LockID struct {
 	T     *types.Named
 	Field string
+}
+
+// Same compares two lock identities; generic types are compared by their origin (every method of a
+// generic type has its own type parameter, hence its own instantiation of the receiver type).
+func (l LockID) Same(o LockID) bool {
+	if l.T == nil || o.T == nil {
+		return false
+	}
+	return l.Field == o.Field && l.T.Origin() == o.T.Origin()
 }
 
 func (l LockID) String() string {
@@ -101,8 +112,30 @@ type LockSpec struct {
 	Entry func(fn *ssa.Function) bool
 }
 
+// scopeCallee resolves the statically called function of c to a function of the analysed scope;
+// calls that go through generic instantiation wrappers are mapped back by their method object.
+func (li *LockInfo) scopeCallee(c ssa.CallInstruction, inScope map[*ssa.Function]bool) *ssa.Function {
+	g := c.Common().StaticCallee()
+	if g == nil {
+		return nil
+	}
+	if inScope[g] {
+		return g
+	}
+	if o := g.Origin(); o != nil && inScope[o] {
+		return o
+	}
+	if cal := Callee(c); cal != nil {
+		if f := li.byObj[cal]; f != nil {
+			return f
+		}
+	}
+	return nil
+}
+
 // LockInfo is the result.
 type LockInfo struct {
+	byObj    map[*types.Func]*ssa.Function
 	Spec     LockSpec
 	Requires map[*ssa.Function]bool // function must be called with the lock held
 	Acquires map[*ssa.Function]bool // function takes the lock itself (on some path) when entered without it
@@ -133,8 +166,12 @@ func AnalyzeLocks(spec LockSpec) *LockInfo {
 	li := &LockInfo{Spec: spec, Requires: map[*ssa.Function]bool{}, Acquires: map[*ssa.Function]bool{},
 		FlagOf: map[*ssa.Function]*ssa.Parameter{}, states: map[lockCtx]map[ssa.Instruction]LState{}}
 	inScope := map[*ssa.Function]bool{}
+	li.byObj = map[*types.Func]*ssa.Function{}
 	for _, f := range spec.Funcs {
 		inScope[f] = true
+		if o, ok := f.Object().(*types.Func); ok && o != nil && f.Parent() == nil {
+			li.byObj[o.Origin()] = f
+		}
 	}
 	// 1. flag parameters: a bool parameter p with a Lock(L) call guarded by (p == false)
 	for _, f := range spec.Funcs {
@@ -145,7 +182,7 @@ func AnalyzeLocks(spec LockSpec) *LockInfo {
 					continue
 				}
 				id, op := MutexOp(c)
-				if op != "lock" || id != spec.ID {
+				if op != "lock" || !id.Same(spec.ID) {
 					continue
 				}
 				li.Acquires[f] = true
@@ -164,7 +201,7 @@ func AnalyzeLocks(spec LockSpec) *LockInfo {
 	for changed := true; changed; {
 		changed = false
 		for _, f := range spec.Funcs {
-			if li.FlagOf[f] != nil || li.Requires[f] {
+			if li.FlagOf[f] != nil || li.Requires[f] || li.isEntry(f) {
 				continue
 			}
 			st := li.run(lockCtx{fn: f, flag: -1, held: false}, inScope, nil)
@@ -172,6 +209,9 @@ func AnalyzeLocks(spec LockSpec) *LockInfo {
 			li.forOps(f, lockCtx{fn: f, flag: -1}, inScope, func(in ssa.Instruction, what string) {
 				if st[in] != LHeld && st[in] != LUnreached {
 					need = true
+					if os.Getenv("RCVERIF_DEBUG_LOCK") != "" {
+						fmt.Fprintln(os.Stderr, "lock-need", f.Name(), what, st[in], in)
+					}
 				}
 			})
 			if need {
@@ -210,13 +250,18 @@ func AnalyzeLocks(spec LockSpec) *LockInfo {
 				}
 			})
 		}
-		if li.Requires[f] && spec.Entry != nil && spec.Entry(f) {
-			li.Problems = append(li.Problems, LockProblem{Kind: "unprotected", Fn: f, At: firstInstr(f),
-				Detail: "entry point touches state protected by " + spec.ID.String() + " without taking the lock"})
-		}
 	}
 	sort.SliceStable(li.Problems, func(i, j int) bool { return li.Problems[i].At.Pos() < li.Problems[j].At.Pos() })
 	return li
+}
+
+// isEntry: API entry points and function literals (which run at an arbitrary later time) cannot rely
+// on a caller holding the lock; their unprotected operations are reported where they occur.
+func (li *LockInfo) isEntry(f *ssa.Function) bool {
+	if f.Parent() != nil {
+		return true
+	}
+	return li.Spec.Entry != nil && li.Spec.Entry(f)
 }
 
 func firstInstr(f *ssa.Function) ssa.Instruction {
@@ -245,8 +290,8 @@ func (li *LockInfo) forOps(f *ssa.Function, cx lockCtx, inScope map[*ssa.Functio
 			if _, isGo := in.(*ssa.Go); isGo {
 				continue
 			}
-			g := c.Common().StaticCallee()
-			if g == nil || !inScope[g] {
+			g := li.scopeCallee(c, inScope)
+			if g == nil {
 				continue
 			}
 			if fp := li.FlagOf[g]; fp != nil {
@@ -340,7 +385,7 @@ func (li *LockInfo) run(cx lockCtx, inScope map[*ssa.Function]bool, problems *[]
 			if _, isGo := ins.(*ssa.Go); isGo {
 				continue
 			}
-			if id, op := MutexOp(c); op != "" && id == li.Spec.ID {
+			if id, op := MutexOp(c); op != "" && id.Same(li.Spec.ID) {
 				if _, isDefer := ins.(*ssa.Defer); isDefer {
 					if op == "unlock" {
 						def = true
@@ -362,8 +407,8 @@ func (li *LockInfo) run(cx lockCtx, inScope map[*ssa.Function]bool, problems *[]
 				}
 				continue
 			}
-			g := c.Common().StaticCallee()
-			if g == nil || !inScope[g] {
+			g := li.scopeCallee(c, inScope)
+			if g == nil {
 				continue
 			}
 			if _, isDefer := ins.(*ssa.Defer); isDefer {
@@ -448,7 +493,7 @@ func (li *LockInfo) UnlockBetween(a, b ssa.Instruction) ssa.Instruction {
 		if _, isDefer := in.(*ssa.Defer); isDefer {
 			continue
 		}
-		if id, op := MutexOp(c); op == "unlock" && id == li.Spec.ID {
+		if id, op := MutexOp(c); op == "unlock" && id.Same(li.Spec.ID) {
 			if (Reach{}).FromInstr(in)[b] {
 				return in
 			}
